@@ -589,7 +589,9 @@ func (ch *channel) Reject(reason RejectionReason, message string) error {
 	// removing it from chanList is sufficient for GC. Calling close()
 	// would race with the mux loop goroutine (handlePacket or dropAll),
 	// causing a panic from closing an already-closed channel.
-	ch.mux.chanList.remove(ch.localId)
+	// The peer may have closed this channel already, and its id may have
+	// been reused: remove only this channel.
+	ch.mux.chanList.removeChan(ch)
 
 	return err
 }
